@@ -5,6 +5,11 @@ open DV DV.Proto
 
 def bad : String := "bad-op"
 
+def parsePair? (s : String) : Option (Float × Float) :=
+  match s.splitOn ":" with
+  | [a, b] => do let a ← parseFloatBits? a; let b ← parseFloatBits? b; pure (a, b)
+  | _ => none
+
 def showList' (l : List Int) : String := "[" ++ showList toString l ++ "]"
 
 instance : Inhabited Rat := ⟨0⟩
@@ -81,6 +86,18 @@ def stepLine (line : String) : String :=
     match p.toNat?, R.toNat? with
     | some p, some R => s!"{Richardson.effectiveOrder p R} {showList showRat (Richardson.weights R)}"
     | _, _ => bad
+  -- brent s|v <lo> <hi> <tol> <x:fx,...> : bit-exact replay of the scalar solver / one vector lane;
+  -- f is the table of logged evaluations (looked up by bit pattern, NaN if the model asks elsewhere)
+  | ["brent", kind, lo, hi, tol, tbl] =>
+    match parseFloatBits? lo, parseFloatBits? hi, parseFloatBits? tol, parseList? parsePair? tbl with
+    | some lo, some hi, some tol, some tbl =>
+      let f : Float → Float := fun x => match tbl.find? (fun p => p.1.toBits == x.toBits) with
+        | some p => p.2
+        | none => (0.0 : Float) / 0.0
+      let eps : Float := Float.ofBits 0x3CD0000000000000   -- 4 * 2^-52 = D.epsilon(float64)
+      let r := if kind == "s" then Brent.brentsroot f lo hi tol eps (1.0 / 0.0) else Brent.lane f lo hi tol eps
+      s!"{showFloatBits r.root} {r.success} {r.iters} {showList showFloatBits r.trace}"
+    | _, _, _, _ => bad
   | [] => ""
   | _ => bad
 
